@@ -6,7 +6,9 @@ import hashlib, json, os, re, shutil, subprocess, sys, tempfile, time
 
 VERIF = os.path.dirname(os.path.abspath(__file__))
 REPO = os.environ.get("VERIF_REPO", "/repo")
-TOOL = os.path.join(VERIF, "tools/sorobanvx/target/release/sorobanvx")
+TOOL = os.environ.get("VX_TOOL") or os.path.join(VERIF, "tools/sorobanvx/target/release/sorobanvx")
+if not os.path.exists(TOOL) and os.path.exists("/verif/tools/sorobanvx/target/release/sorobanvx"):
+    TOOL = "/verif/tools/sorobanvx/target/release/sorobanvx"   # developer worktrees share the built translator
 
 
 class Undecided(Exception):
